@@ -51,12 +51,22 @@ def window(base, off, ln):
     return base[off:] if ln is None else base[off:off + ln]
 
 
-def check_file(data, path, raw_timestamps=False, max_bad=3):
+_MM = []
+
+
+def _memmap_dir():
+    if not _MM:
+        _MM.append(H.scratch('verif_c04mm_'))
+    return _MM[0]
+
+
+def check_file(data, path, raw_timestamps=False, max_bad=3, memmap=False):
     """-> (n_ops, L, list of (opkind, mode, op, expected, observed))"""
     comps = H._components(path)
     bad = []
     nops = 0
-    r = H.guarded(lambda: H.TdmsFile.read(io.BytesIO(data), raw_timestamps=raw_timestamps))
+    mm = _memmap_dir() if memmap else None
+    r = H.guarded(lambda: H.TdmsFile.read(io.BytesIO(data), raw_timestamps=raw_timestamps, memmap_dir=mm))
     if r[0] != 'ok':
         return 0, -1, [('open', 'eager', 'TdmsFile.read', 'no error', 'raised %s: %s' % (r[1], r[2]))]
     eager = r[1]
@@ -68,7 +78,7 @@ def check_file(data, path, raw_timestamps=False, max_bad=3):
     L = len(base)
     if len(ech) != L:
         bad.append(('len', 'eager', 'len(channel)', L, len(ech)))
-    r = H.guarded(lambda: H.TdmsFile.open(io.BytesIO(data), raw_timestamps=raw_timestamps))
+    r = H.guarded(lambda: H.TdmsFile.open(io.BytesIO(data), raw_timestamps=raw_timestamps, memmap_dir=mm))
     if r[0] != 'ok':
         return 0, L, [('open', 'lazy', 'TdmsFile.open', 'no error', 'raised %s: %s' % (r[1], r[2]))]
     lazy = r[1]
@@ -178,9 +188,14 @@ def run_file(item):
     if kind == 'ts':
         # the same operations on files read / opened with raw_timestamps=True (TimestampArray / TdmsTimestamp results)
         variants += [(c, d, True) for c, d, _r in list(variants)]
+    if kind in ('daqmx', 'be', 'il') and len(opts) <= 2:
+        # ... and with memmap_dir (receivers backed by memory-mapped temporary files), complete files only
+        variants += [(None, data, 'memmap')]
     gap = F.f4_has_gap(opts)
     for cut, d, raw_ts in variants:
-        nops, L, bad = check_file(d, F.A, raw_timestamps=raw_ts)
+        memmap = raw_ts == 'memmap'
+        raw_ts = raw_ts is True
+        nops, L, bad = check_file(d, F.A, raw_timestamps=raw_ts, memmap=memmap)
         res['counters']['files'] += 1
         res['counters']['ops'] += nops
         if L >= 2:
@@ -197,10 +212,10 @@ def run_file(item):
         for (k, mode, op, exp, got) in bad[:6]:
             res['violations'].append({
                 'case': {'kind': kind, 'opts': [list(o) if isinstance(o, tuple) else o for o in opts], 'cut': cut,
-                         'seed': seed, 'op': op, 'mode': mode, 'raw_ts': raw_ts},
+                         'seed': seed, 'op': op, 'mode': mode, 'raw_ts': raw_ts, 'memmap': memmap},
                 'expected': exp, 'observed': got,
                 'signature': {'kind': k, 'mode': mode, 'elem': kind, 'gap_segment_without_channel': gap,
-                              'truncated': cut is not None, 'raw_ts': raw_ts}})
+                              'truncated': cut is not None, 'raw_ts': raw_ts, 'memmap': memmap}})
         if not res['samples'] and L >= 3:
             res['samples'].append({'file': G.describe(hist), 'cut': cut, 'len': L, 'operations': nops})
     return res
@@ -330,7 +345,7 @@ def replay(case):
     data = G.encode(hist, seed=case.get('seed', 0))[0]
     if case.get('cut') is not None:
         data = data[:case['cut']]
-    _n, _L, bad = check_file(data, F.A, raw_timestamps=bool(case.get('raw_ts')), max_bad=1000)
+    _n, _L, bad = check_file(data, F.A, raw_timestamps=bool(case.get('raw_ts')), max_bad=1000, memmap=bool(case.get('memmap')))
     for (k, mode, op, exp, got) in bad:
         if op == case['op'] and mode == case['mode']:
             return True, exp, got
